@@ -36,6 +36,19 @@ func (s *Store) extFaultErr() error {
 	return nil
 }
 
+// extRevokeErr: RevokeToken returns *oidc.Error, so a storage chooses the error TYPE itself. When
+// SetFaultErr chose a value that is (or wraps) an *oidc.Error, that error is what RevokeToken
+// returns; every other failure is reported as before, server_error with the value as parent.
+func (s *Store) extRevokeErr(err error) *oidc.Error {
+	if _, chosen := faultErrs.Load(s); chosen {
+		var oe *oidc.Error
+		if errors.As(err, &oe) {
+			return oe
+		}
+	}
+	return oidc.ErrServerError().WithParent(err)
+}
+
 // ---- storage variants by OPTIONAL interface (C10). The framework type-asserts these
 // interfaces; every call goes through the same journal / fault hook as the rest.
 
